@@ -21,6 +21,12 @@ def run(ctx):
             jobs.append((exe, ["pbkdf2", 0, pat, t], be))
     common.parallel(lambda j: common.run_harness(ctx, j[0], j[1], label=j[2]), jobs)
     common.align_jobs(ctx, jobs, lambda j: j[2] in ("asm", "c64") and j[1][2] == 3)
+    # long one-shot KDF outputs (the declared length is the output length): 128 KiB+1 .. 16 MiB+3, and 2^29 bytes (the limit of the declared-length field; thorough: also 2^29-1 and 2^29+9)
+    common.mid_lengths(ctx, ["kdf-out:0", "kdf-out:1"], ("asm", "c64", "c32", "dxor", "generic") if ctx.thorough else ("asm", "c32"))
+    lib = build.build_lib("asm", opt="-O2")
+    hexe = build.build_prog("huge", ["harness/huge.c", "harness/sysrand.c", "ref/ref.c"], lib, opt="-O2")
+    big = [[w, L] for w in ("kdf-out:0", "kdf-out:1") for L in ((1 << 29) - 1, 1 << 29, (1 << 29) + 9)] if ctx.thorough else [["kdf-out:0", 1 << 29], ["kdf-out:1", 1 << 29]]
+    common.parallel(lambda j: common.run_harness(ctx, hexe, j, label="asm", timeout=max(60, ctx.remaining())), big, jobs=2)
     ctx.assumptions += [
         "RFC 5869 over the reference HMAC; absent salt == empty salt (both give a zero block key); RFC 8018 with INT(i) big-endian from 1, count 0 treated as 1",
         "PBKDF2 PRF = cXOF('PBKDF2', custom = password, declared 32) as documented in pbkdf2.h; KDF = cXOF('KDF', custom, declared = outlen)(key)",
